@@ -393,7 +393,16 @@ def rule_a5(ctx: Ctx, po: PermOps) -> None:
                 ctx.note(f"{cname}.{alias} alias absent")
 
 
+GENERIC_FILES = ['permuta/patterns/perm.py', 'permuta/patterns/meshpatt.py', 'permuta/permutils/symmetry.py']
+
+
 def variants():
+    from ..selftest import generic_silent
+
+    return _variants() + generic_silent(GENERIC_FILES)
+
+
+def _variants():
     from ..selftest import V, insert_stmt, reformat_only, rename_local, replace_expr, replace_stmt
 
     PE, MP, SY = "permuta/patterns/perm.py", "permuta/patterns/meshpatt.py", "permuta/permutils/symmetry.py"
